@@ -74,11 +74,13 @@ UnbSum(s, a) == BSum({x \in UnbEntries(s) : s.unbQ[x[1]][x[2]].a = a}, LAMBDA x 
 
 -----------------------------------------------------------------------------
 (* C01 custody *)
-C01_State(s) ==
+C01_State(s, gh) ==
   LET denoms == (DOMAIN s.assets \cup {s.unbQ[x[1]][x[2]].a : x \in UnbEntries(s)}) \ {BondDenom}
       owed(a) == BAdd(BAdd(IF a \in DOMAIN s.assets THEN s.assets[a].total ELSE "0", UnbSum(s, a)), Get(s.bank.donated, a))
-  IN  UNION {Check("C01", Get(s.bank.custody, a) = owed(a),
-                   "custody of " \o a \o " is " \o Get(s.bank.custody, a) \o " but staked total + pending unbondings + donated = " \o owed(a)) : a \in denoms}
+  IN  UNION {CheckK("C01", Get(s.bank.custody, a) = owed(a),
+                    \* K9: the excess is exactly the rewards in this denom that were withdrawn for validators without delegator shares
+                    IF IsPos(Get(gh.stuck, a)) /\ Get(s.bank.custody, a) = BAdd(owed(a), Get(gh.stuck, a)) THEN "K9" ELSE "",
+                    "custody of " \o a \o " is " \o Get(s.bank.custody, a) \o " but staked total + pending unbondings + donated = " \o owed(a)) : a \in denoms}
 
 -----------------------------------------------------------------------------
 (* C03 share ledger *)
@@ -134,7 +136,9 @@ C02_State(s) ==
 \*          under rewards that were already accrued)
 \* k2:      per reward denom, the over-credit that the half-even rounding of the reward index can have produced so far
 \*          (root cause K2); zero for small stakes
-GhostInit == [unb |-> <<>>, red |-> <<>>, stall |-> FALSE, dep |-> <<>>, slashed |-> FALSE, k2 |-> NoCoins]
+\* stuck:   rewards withdrawn from x/distribution for a validator without delegator shares: they stay in the module account
+\*          (root cause K9)
+GhostInit == [unb |-> <<>>, red |-> <<>>, stall |-> FALSE, dep |-> <<>>, slashed |-> FALSE, k2 |-> NoCoins, stuck |-> NoCoins]
 LedgerOfState(s) ==
   LET xs == SortBy(UnbEntries(s), LAMBDA x : <<x[1][1], DelIdx(x[1][2]), x[2]>>)
   IN  [i \in DOMAIN xs |-> [d |-> s.unbQ[xs[i][1]][xs[i][2]].d, v |-> s.unbQ[xs[i][1]][xs[i][2]].v, a |-> s.unbQ[xs[i][1]][xs[i][2]].a,
@@ -175,7 +179,13 @@ GhostNext(gh, pre, rec, post) ==
       inc(rd) == BSum({u \in upd : u[3] = rd /\ u[2] \in DOMAIN pre.assets},
                       LAMBDA u : BQuo(BMul("4", BAdd(TruncInt(ValTokens(pre.assets[u[2]], Info(pre, u[1]), u[2])), Get(post.bank.rewards, rd))), ONE))
       k22 == CoinsAdd(gh.k2, [rd \in {rd \in {u[3] : u \in upd} : ~IsZero(inc(rd))} |-> inc(rd)])
-  IN  [unb |-> unb2, red |-> red1, stall |-> gh.stall, dep |-> dep2, slashed |-> slashed2, k2 |-> k22]
+      \* K9: pending rewards of v were withdrawn in this step while v recorded no delegator shares
+      strand == {v \in DOMAIN pre.env.vals : HasMod(pre, v) /\ ~IsEmptyMap(Pending(pre, v)) /\ v \in DOMAIN post.env.vals /\ IsEmptyMap(Pending(post, v))
+                                             /\ IsEmptyMap(Info(pre, v).dshares)
+                                             /\ rec.ev \notin {"Accrue", "AccrueFees"}}
+      stuck0 == IF rec.ev = "EndBlock" THEN [k \in DOMAIN gh.stuck \ {BondDenom} |-> gh.stuck[k]] ELSE gh.stuck     \* stray staking coins are burned
+      stuck2 == FoldSet(LAMBDA v, acc : CoinsAdd(acc, Pending(pre, v)), stuck0, strand)
+  IN  [unb |-> unb2, red |-> red1, stall |-> gh.stall, dep |-> dep2, slashed |-> slashed2, k2 |-> k22, stuck |-> stuck2]
 
 -----------------------------------------------------------------------------
 (* C02 / C07: unbondings *)
@@ -288,6 +298,15 @@ C07_Red_Step(pre, rec, post, gh) ==
 
 -----------------------------------------------------------------------------
 (* C04 position isolation *)
+\* K3b: the asset's share total is zero while tokens remain (every validator holding it was slashed by 100 %)
+OrphanedTotal(s, a) == a \in DOMAIN s.assets /\ IsZero(s.assets[a].vshares) /\ IsPos(s.assets[a].total)
+\* K8: validator v holds shares of asset a worth at least one token while fewer than one delegator share is recorded on it
+\* (the value was left behind by a slash of a redelegation destination or by dust clearing); new delegator shares are then
+\* issued 1:1 and the newcomer receives that value
+OrphanedOnValidator(s, v, a) ==
+  /\ a \in DOMAIN s.assets
+  /\ IsZero(TruncInt(Get(Info(s, v).dshares, a)))
+  /\ ~IsZero(TruncInt(ValTokens(s.assets[a], Info(s, v), a)))
 C04_Step(pre, rec, post) ==
   LET e == rec.args
       a == e.a
@@ -308,21 +327,26 @@ C04_Step(pre, rec, post) ==
                         /\ [x \in DOMAIN pre.assets |-> <<pre.assets[x].total, pre.assets[x].vshares>>] = [x \in DOMAIN post.assets |-> <<post.assets[x].total, post.assets[x].vshares>>],
                  "a reward claim changed a staked value")
       ELSE IF a \notin DOMAIN pre.assets \/ a \notin DOMAIN post.assets THEN {}
-      ELSE UNION {
+      ELSE LET kf == IF OrphanedTotal(pre, a) \/ OrphanedTotal(post, a) THEN "K3b"
+                     ELSE IF \E k \in actorKeys : delta(k) = e.x /\ OrphanedOnValidator(pre, k[2], a) THEN "K8"
+                     ELSE "" IN
+           UNION {
              IF k \in actorKeys
-             THEN Check("C04", Within(RSub(PosValueOr0(post, k), PosValueOr0(pre, k)), RInt(delta(k)), tol(k)),
+             THEN CheckK("C04", Within(RSub(PosValueOr0(post, k), PosValueOr0(pre, k)), RInt(delta(k)), tol(k)), kf,
                         rec.ev \o " of " \o e.x \o ": the actor's position " \o ToString(k) \o " did not change by the requested amount")
-             ELSE Check("C04", Within(PosValueOr0(post, k), PosValueOr0(pre, k), tol(k)),
+             ELSE CheckK("C04", Within(PosValueOr0(post, k), PosValueOr0(pre, k), tol(k)), kf,
                         rec.ev \o " of " \o e.x \o " by " \o e.d \o " changed the value of another position " \o ToString(k))
            : k \in ks}
 
 C04_State(s) ==
   UNION {LET ks == PositionsOf(s, a)
              sum == BSum({k \in ks : BIsNum(s.bals[k])}, LAMBDA k : s.bals[k])
-         IN  CheckK("C04", BLe(sum, BAdd(s.assets[a].total, Cardinality(ks))),
+             \* one unit per position, plus the pool-relative resolution of the 18-digit quotients for large stakes
+             slack == BSum(ks, LAMBDA k : TolTok(s, k[2], a, "0"))
+         IN  CheckK("C04", BLe(sum, BAdd(s.assets[a].total, slack)),
                    \* K3b: every validator holding shares of the asset was slashed by 100 %: the share total is zero while
                    \* tokens remain, and the conversion then values every position at the whole staked total
-                   IF IsZero(s.assets[a].vshares) /\ IsPos(s.assets[a].total) THEN "K3b" ELSE "",
+                   IF OrphanedTotal(s, a) THEN "K3b" ELSE "",
                    "reported values of the positions in " \o a \o " sum to " \o sum \o ", more than the staked total " \o s.assets[a].total \o " plus one unit per position")
          : a \in DOMAIN s.assets}
 
@@ -335,10 +359,15 @@ Claimable(rec, rd) == BSum(ClaimProbes(rec), LAMBDA p : BSum({i \in DOMAIN p.pai
 PendingIn(s, rd) == BSum({v \in DOMAIN s.env.vals : HasMod(s, v)}, LAMBDA v : Get(Pending(s, v), rd))
 Shortfall(s, rec, rd) == BSub(Claimable(rec, rd), BAdd(Get(s.bank.rewards, rd), PendingIn(s, rd)))
 \* which listed finding explains a short pool in this state: K1 after a slash, K2 within the index-rounding budget
+\* the claim probes index the rewards still pending in x/distribution on their branch: the same rounding allowance for those
+K2Prospective(s, rd) ==
+  BSum({v \in DOMAIN s.env.vals : HasMod(s, v) /\ IsPos(Get(Pending(s, v), rd))},
+       LAMBDA v : BSum(PoolEligible(s, Info(s, v)),
+                       LAMBDA a : BQuo(BMul("4", BAdd(TruncInt(ValTokens(s.assets[a], Info(s, v), a)), Get(Pending(s, v), rd))), ONE)))
 PoolExplained(s, rec, gh) ==
   IF gh.slashed THEN "K1"
   ELSE IF \A rd \in DOMAIN s.bank.rewards \cup DOMAIN gh.k2 \cup UNION {{p.paid[i].a : i \in DOMAIN p.paid} : p \in ClaimProbes(rec)} :
-             BLe(Shortfall(s, rec, rd), Get(gh.k2, rd)) THEN "K2"
+             BLe(Shortfall(s, rec, rd), BAdd(Get(gh.k2, rd), K2Prospective(s, rd))) THEN "K2"
   ELSE ""
 \* K3: the validator records delegator shares of the asset but holds no tokens of it (after a 100 % slash); the share
 \* conversion of a new deposit divides by zero
@@ -521,9 +550,11 @@ WeightSum(s, v) == RSumSet({a \in DOMAIN s.assets : Started(s.assets[a], s.now) 
 C10_Step(pre, rec, post) ==
   IF rec.ev # "EndBlock" \/ ~rec.res.ok THEN {}
   ELSE UNION {CheckK("C10", Within(Rat(ModTok(post, v), ONE), TargetRat(post, v), "2"),
-                     \* K7: the rebalancer rounds the native bonded amount to whole units before multiplying by the reward
-                     \* weights and truncates the adjustment: the deviation is bounded by 1 + the sum of the weights
-                     IF Within(Rat(ModTok(post, v), ONE), TargetRat(post, v), BAdd("1", RCeil(WeightSum(post, v)))) THEN "K7" ELSE "",
+                     \* K7: the rebalancer computes the native bonded amount from per-validator truncated token amounts, rounds it
+                     \* to whole units before multiplying by the reward weights and truncates the adjustment: the deviation is
+                     \* bounded by 2 + (1 + number of validators carrying module stake) * sum of the weights
+                     IF Within(Rat(ModTok(post, v), ONE), TargetRat(post, v),
+                               BAdd("2", BMul(BFromInt(1 + Cardinality({u \in BondedSet(pre) : HasMod(pre, u)})), RCeil(WeightSum(post, v))))) THEN "K7" ELSE "",
                     "after end-of-block, bonded validator " \o v \o " carries alliance stake " \o ModTok(post, v) \o "e-18, not the target within two units")
               : v \in {v \in BondedSet(post) : ~EnvVal(post, v).jailed}}
        \cup UNION {Check("C10", ~IsBonded(pre, v) /\ ~IsBonded(post, v) => ModTok(post, v) = ModTok(pre, v) /\ EnvVal(post, v).modShares = EnvVal(pre, v).modShares,
@@ -531,14 +562,20 @@ C10_Step(pre, rec, post) ==
 
 NetSupply(s) == BSub(DecFromInt(s.bank.supplyBond), BSum({v \in DOMAIN s.env.vals : HasMod(s, v)}, LAMBDA v : ModTok(s, v)))   \* Dec
 AllianceEvents == {"Delegate", "Undelegate", "Redelegate", "Claim", "EndBlock", "SlashHook", "GovCreate", "GovUpdate", "GovDelete", "GovParams", "ExportImport"}
-C11_Step(pre, rec, post) ==
+C11_Step(pre, rec, post, gh, gh2) ==
   (IF rec.ev \in AllianceEvents
    THEN LET touched == Cardinality({v \in DOMAIN pre.env.vals : EnvVal(pre, v).modShares # EnvVal(post, v).modShares})
-        IN  Check("C11", BLe(BAbs(BSub(NetSupply(post), NetSupply(pre))), BMul(BFromInt(touched + 1), ONE))
+            \* K9: stray staking coins left in the module account by the previous block are burned by this end-of-block
+            burnt == IF rec.ev = "EndBlock" THEN DecFromInt(Get(gh.stuck, BondDenom)) ELSE "0"
+        IN  CheckK("C11", BLe(BAbs(BSub(NetSupply(post), NetSupply(pre))), BMul(BFromInt(touched + 1), ONE))
                          /\ (touched = 0 => post.bank.supplyBond = pre.bank.supplyBond \/ rec.ev = "EndBlock"),
+                   IF IsPos(burnt) /\ BLe(BAbs(BSub(BAdd(NetSupply(post), burnt), NetSupply(pre))), BMul(BFromInt(touched + 1), ONE)) THEN "K9" ELSE "",
                   rec.ev \o " changed the staking-denom supply net of the module's stake from " \o NetSupply(pre) \o " to " \o NetSupply(post))
    ELSE {})
-  \cup (IF rec.ev = "EndBlock" /\ rec.res.ok THEN Check("C11", IsZero(Get(post.bank.custody, BondDenom)), "the module account holds staking-denom coins after end-of-block") ELSE {})
+  \cup (IF rec.ev = "EndBlock" /\ rec.res.ok
+        THEN CheckK("C11", IsZero(Get(post.bank.custody, BondDenom)),
+                    IF Get(post.bank.custody, BondDenom) = Get(gh2.stuck, BondDenom) THEN "K9" ELSE "",
+                    "the module account holds staking-denom coins after end-of-block") ELSE {})
 
 C11_Probes(s, rec) ==
   LET bonded == BSum({v \in BondedSet(s) : HasMod(s, v)}, LAMBDA v : TokensFromSharesTrunc(EnvVal(s, v), EnvVal(s, v).modShares))
@@ -601,7 +638,8 @@ C20_Probes(s, rec, gh) ==
 
 -----------------------------------------------------------------------------
 (* C18 genesis round trip, evaluated on an ExportImport step: pre is the original state *)
-QueueView(s) == [t \in DOMAIN s.redQ |-> {s.redQ[t][i] : i \in DOMAIN s.redQ[t]}]
+\* the time queue is only used to find the records to delete at maturity: multiplicity and balances of its entries are unobservable
+QueueView(s) == [t \in DOMAIN s.redQ |-> {<<s.redQ[t][i].d, s.redQ[t][i].src, s.redQ[t][i].dst, s.redQ[t][i].a>> : i \in DOMAIN s.redQ[t]}]
 ObsView(s) == [StoreView(s) EXCEPT !.redQ = QueueView(s)]
 C18_Step(pre, rec, post) ==
   IF rec.ev # "ExportImport" THEN {}
@@ -612,7 +650,7 @@ C18_Step(pre, rec, post) ==
 
 -----------------------------------------------------------------------------
 JudgeState(s, rec, gh) ==
-  C01_State(s) \cup C03_State(s) \cup AssetValid_State(s) \cup C15_State(s) \cup C02_State(s) \cup C04_State(s)
+  C01_State(s, gh) \cup C03_State(s) \cup AssetValid_State(s) \cup C15_State(s) \cup C02_State(s) \cup C04_State(s)
   \cup C05_Probes(s, rec, gh) \cup C12_Probes(s, rec, gh) \cup C20_Probes(s, rec, gh) \cup C11_Probes(s, rec) \cup C15_Probes(s, rec, gh)
 
 Judge(pre, rec, post, gh, gh2) ==
@@ -621,7 +659,7 @@ Judge(pre, rec, post, gh, gh2) ==
   \cup C08_Step(pre, rec, post) \cup C06_Step(pre, rec, post, gh) \cup C04_Step(pre, rec, post)
   \cup C09_Step(pre, rec, post) \cup C14_Step(pre, rec, post) \cup C14_Settle(pre, rec, post)
   \cup C15_Step(pre, rec, post, gh) \cup C16_Step(pre, rec, post) \cup C17_Step(pre, rec, post)
-  \cup C10_Step(pre, rec, post) \cup C11_Step(pre, rec, post) \cup C18_Step(pre, rec, post)
+  \cup C10_Step(pre, rec, post) \cup C11_Step(pre, rec, post, gh, gh2) \cup C18_Step(pre, rec, post)
 
 \* coverage tags: which property antecedents were exercised non-trivially at this step
 Covers(pre, rec, post, gh, gh2) ==
